@@ -137,6 +137,15 @@ def new_version_contract():
             prec, con, value = bound.get('precision'), bound.get('precision_constraint'), bound.get('value')
             ok = isinstance(prec, Val) and prec.sort == 'str' and z3.is_string_value(prec.t) and prec.t.as_string() == 'millisecond' and not errors
             x.oblige('call(parse_into_datetime): precision is "millisecond", arguments bind to the real signature', p1.pc, z3.BoolVal(bool(ok)), p1.exact, 'call-requires')
+            for nm_ in ('prec', 'con'):        # an omitted argument takes the default of the callee's REAL signature (re-read from source)
+                v_ = prec if nm_ == 'prec' else con
+                if isinstance(v_, tuple) and v_[0] == 'default':
+                    d_ = v_[1]; lit = None
+                    if isinstance(d_, ast.Constant) and isinstance(d_.value, str): lit = d_.value
+                    elif isinstance(d_, ast.Attribute) and isinstance(d_.value, ast.Name) and d_.value.id in ('Precision', 'PrecisionConstraint'): lit = d_.attr.lower()    # enum member: the text names it
+                    if lit is not None:
+                        if nm_ == 'prec': prec = Str(lit)
+                        else: con = Str(lit)
             if not (isinstance(con, Val) and con.sort == 'str'): raise Unsupported(site + ' precision_constraint sort')
             x.oblige('call(parse_into_datetime): precision_constraint names a member', p1.pc, z3.Or(con.t == z3.StringVal('min'), con.t == z3.StringVal('exact')), p1.exact, 'call-requires')
             yield p1.fork(), Exc('ValueError', site)
@@ -323,6 +332,10 @@ def new_version_outcomes(x, outs, add):
                 add(f'clock path: the constructor receives the fudged time as modified @path{idx}', p.pc, z3.And(m.x['present']('modified'), same_value(newm, res)), p.exact)
                 add(f'clock path: modified strictly later than the original at serialization precision, whatever the clock reads @path{idx}', p.pc,
                     z3.If(u21, res.t > old, res.t / 1000 > old / 1000), p.exact)
+                raw_old = (args['old_modified'].x or {}).get('raw') if isinstance(args['old_modified'].x, dict) else None
+                if raw_old is not None:      # ... and later than the instant the original actually carries (2.1 keeps microseconds: a bound truncated to the millisecond is not enough)
+                    add(f'clock path: modified strictly later than the instant the original carries, at serialization precision @path{idx}', p.pc,
+                        z3.If(u21, res.t > raw_old, res.t / 1000 > raw_old / 1000), p.exact)
             else:
                 add(f'supplied modified path: caller gave modified @path{idx}', p.pc, K('modified'), p.exact)
         elif kind == 'raise' and v.name == 'UnmodifiablePropertyError':
